@@ -51,6 +51,8 @@ type pInput struct {
 	Kind  string `json:"kind,omitempty"` // none | pipe | file | reader
 	Bytes []int  `json:"bytes,omitempty"`
 	End   string `json:"end,omitempty"` // hold | eof | fail
+	W     int    `json:"w,omitempty"`   // pty: initial window size
+	H     int    `json:"h,omitempty"`
 }
 
 // pCtl is what a callback (Init / Update) does besides logging.
@@ -83,6 +85,8 @@ type pStep struct {
 	Kind  string    `json:"kind,omitempty"`
 	N     int       `json:"n,omitempty"`
 	Sig   string    `json:"sig,omitempty"`
+	W     int       `json:"w,omitempty"`
+	H     int       `json:"h,omitempty"`
 }
 
 type pScenario struct {
@@ -129,23 +133,24 @@ type pAPI struct {
 }
 
 type pResult struct {
-	ID             int      `json:"id"`
-	Events         []pEvent `json:"events"`
-	RunStarted     bool     `json:"run_started"`
-	RunReturned    bool     `json:"run_returned"`
-	RunErr         string   `json:"run_err"`
-	RunErrText     string   `json:"run_err_text"`
-	FinalVer       int      `json:"final_ver"`
-	RunPanicked    string   `json:"run_panicked,omitempty"`
-	API            []pAPI   `json:"api"`
-	SendersDone    []bool   `json:"senders_done"`
-	ScriptTimeout  *int     `json:"script_timeout"`
-	Output         []int    `json:"output"`
-	OutputAtReturn int      `json:"output_at_return"`
-	PausedAtEnd    []string `json:"paused_at_end,omitempty"`
-	Errors         []string `json:"errors,omitempty"`
-	Crashed        bool     `json:"crashed,omitempty"`
-	CrashText      string   `json:"crash_text,omitempty"`
-	WallMs         int64    `json:"wall_ms"`
-	Stuck          string   `json:"stuck,omitempty"`
+	ID              int      `json:"id"`
+	Events          []pEvent `json:"events"`
+	RunStarted      bool     `json:"run_started"`
+	RunReturned     bool     `json:"run_returned"`
+	RunErr          string   `json:"run_err"`
+	RunErrText      string   `json:"run_err_text"`
+	FinalVer        int      `json:"final_ver"`
+	RunPanicked     string   `json:"run_panicked,omitempty"`
+	API             []pAPI   `json:"api"`
+	SendersDone     []bool   `json:"senders_done"`
+	ScriptTimeout   *int     `json:"script_timeout"`
+	Output          []int    `json:"output"`
+	OutputAtReturn  int      `json:"output_at_return"`
+	PausedAtEnd     []string `json:"paused_at_end,omitempty"`
+	Errors          []string `json:"errors,omitempty"`
+	Crashed         bool     `json:"crashed,omitempty"`
+	CrashText       string   `json:"crash_text,omitempty"`
+	WallMs          int64    `json:"wall_ms"`
+	Stuck           string   `json:"stuck,omitempty"`
+	TermiosRestored *bool    `json:"termios_restored,omitempty"`
 }
